@@ -24,7 +24,8 @@ CONSTANTS
     Alphabet,     \* code points the model generates (all widths 1..4 and NUL)
     MaxChars,     \* bound on the number of characters of the string
     MaxOps,       \* bound on the number of steps of a behaviour (constructor included)
-    Texts,        \* argument strings for push_str / insert_str / replace_range / fmt pieces / C strings
+    Texts,        \* argument strings for push_str / insert_str / replace_range / fmt pieces
+    CTexts,       \* argument strings of the C-string constructors (NUL first / inside / last / absent)
     Lits,         \* sequence of format-string literals (mirrored in harness/strs: LITS)
     Kinds,        \* subset of {"box", "fixed", "grow"}
     FixedCaps,    \* capacities (bytes) of fixed strings
@@ -36,6 +37,7 @@ CONSTANTS
     InclSet,      \* {FALSE} or {FALSE, TRUE}: inclusive range ends
     Apis,         \* subset of {"p", "t"}: panicking / try_ entry points
     DrainF, DrainB, \* bounds on the number of next() / next_back() calls on a drain
+    OutFilter,    \* outcomes of operations that are generated ({"ok", "panic", "full"} = all; focused emission sets use less)
     CheckProps,   \* assert StepProps on every transition (model checking) or not (behaviour emission)
     SampleK       \* 0: every index / range / retain mask is an argument (exhaustive); k > 0: a random subset of k of
                   \* them per evaluation (random walks: keeps the number of candidate successors per step small)
@@ -131,6 +133,7 @@ Start(o) ==
 \* operation step with the given outcome
 Do(o, out) ==
     LET r == Apply(St, o, Lits) IN
+    /\ out \in OutFilter
     /\ r.out = out
     /\ kind' = kind
     /\ Commit(St, o, r)
@@ -155,6 +158,10 @@ Masks  == Sample([1..Len(str) -> BOOLEAN])
 PieceSeqs == UNION {[1..k -> Texts] : k \in 0..MaxPieces}
 \* a format call: literal k (pieces ignored) or run-time pieces
 Fmts == {[lit |-> k, ps |-> <<>>] : k \in 1..Len(Lits)} \cup {[lit |-> 0, ps |-> p] : p \in PieceSeqs}
+
+\* format calls of the C-string constructors: pieces range over CTexts
+CFmts == {[lit |-> k, ps |-> <<>>] : k \in 1..Len(Lits)}
+             \cup {[lit |-> 0, ps |-> p] : p \in UNION {[1..k -> CTexts] : k \in 0..MaxPieces}}
 
 CapsFor(k, need) == IF k = "fixed" THEN {c \in FixedCaps : c >= need} ELSE {INF}
 
@@ -267,13 +274,13 @@ ReserveFull   == Live("reserve") /\ IsFixed /\ \E o \in ReserveOps : Do(o, "full
 \* C strings.  into_cstr consumes a growable string; the alloc_cstr* functions take their text as an argument
 \* (alloc_cstr takes a &CStr, so its text has no NUL).
 IntoCstr      == Live("into_cstr") /\ kind = "grow" /\ \E a \in Apis : Do([name |-> "into_cstr", api |-> a], "ok")
-AllocCstr     == Live("alloc_cstr") /\ \E a \in Apis, t \in {x \in Texts : CountNul(x) = 0} :
+AllocCstr     == Live("alloc_cstr") /\ \E a \in Apis, t \in {x \in CTexts : CountNul(x) = 0} :
                      Do([name |-> "alloc_cstr", api |-> a, t |-> t], "ok")
-AllocCstrFromStr == Live("alloc_cstr_from_str") /\ \E a \in Apis, t \in Texts :
+AllocCstrFromStr == Live("alloc_cstr_from_str") /\ \E a \in Apis, t \in CTexts :
                      Do([name |-> "alloc_cstr_from_str", api |-> a, t |-> t], "ok")
-AllocCstrFmt  == Live("alloc_cstr_fmt") /\ \E a \in Apis, f \in Fmts :
+AllocCstrFmt  == Live("alloc_cstr_fmt") /\ \E a \in Apis, f \in CFmts :
                      Do([name |-> "alloc_cstr_fmt", api |-> a, lit |-> f.lit, ps |-> f.ps], "ok")
-AllocCstrFmtMut == Live("alloc_cstr_fmt_mut") /\ \E a \in Apis, f \in Fmts :
+AllocCstrFmtMut == Live("alloc_cstr_fmt_mut") /\ \E a \in Apis, f \in CFmts :
                      Do([name |-> "alloc_cstr_fmt_mut", api |-> a, lit |-> f.lit, ps |-> f.ps], "ok")
 
 \* a complete behaviour takes one last step that changes nothing: the state it leads to is the only one with
